@@ -16,6 +16,7 @@ import (
 	"math"
 	"strings"
 
+	"github.com/golang/geo/s1"
 	"github.com/golang/geo/s2"
 	cg "verifharness/internal/codecgen"
 	"verifharness/internal/vkit"
@@ -67,6 +68,7 @@ func run(c *vkit.Collector, rng *vkit.Rng, budget int) {
 	polygons(c, rng, budget)
 	latticeSweep(c, rng, budget)
 	tiePolygons(c, rng, budget)
+	queryAnswers(c, rng, budget)
 	c.Extra["violations_by_kind"] = perKind
 }
 
@@ -472,6 +474,37 @@ func loops(c *vkit.Collector, rng *vkit.Rng, budget int) {
 	}
 }
 
+// derivedState checks, on a decoded polygon, the unexported state that queries read but the
+// encodings do not carry: it must be what the constructors would have derived from the fields.
+func derivedState(c *vkit.Collector, q *s2.Polygon, rep map[string]interface{}) {
+	loops, _, bound, nv := s2.VerifC09PolygonFields(q)
+	sub, ne, hasIdx := s2.VerifC09PolygonDerived(q)
+	sum := 0
+	for i, l := range loops {
+		vs, _, _, lb := s2.VerifC09LoopFields(l)
+		sum += len(vs)
+		lsub, lidx := s2.VerifC09LoopDerived(l)
+		if !rectEq(lsub, s2.ExpandForSubregions(lb)) {
+			violate(c, "Loop.derived.subregionBound", fmt.Sprintf("decoded loop %d (%d vertices): subregionBound is not ExpandForSubregions(bound)", i, len(vs)), rep)
+		}
+		if !lidx {
+			violate(c, "Loop.derived.index", fmt.Sprintf("decoded loop %d has no index", i), rep)
+		}
+	}
+	if nv != sum {
+		violate(c, "Polygon.derived.numVertices", fmt.Sprintf("numVertices %d, loops hold %d", nv, sum), rep)
+	}
+	if wantNE := sum; !q.IsFull() && ne != wantNE {
+		violate(c, "Polygon.derived.numEdges", fmt.Sprintf("numEdges %d, loops hold %d", ne, wantNE), rep)
+	}
+	if !hasIdx {
+		violate(c, "Polygon.derived.index", "decoded polygon has no index", rep)
+	}
+	if !rectEq(sub, s2.ExpandForSubregions(bound)) {
+		violate(c, "Polygon.derived.subregionBound", "subregionBound is not ExpandForSubregions(bound)", rep)
+	}
+}
+
 // ---- Polygon (both formats) ----
 
 func polygons(c *vkit.Collector, rng *vkit.Rng, budget int) {
@@ -511,6 +544,7 @@ func polygons(c *vkit.Collector, rng *vkit.Rng, budget int) {
 			continue
 		}
 		qloops, qhh, qbound, _ := s2.VerifC09PolygonFields(q)
+		derivedState(c, q, rep)
 		// [S] field by field
 		if len(qloops) != len(loopsP) {
 			violate(c, "Polygon.roundtrip", "loop count differs", rep)
@@ -720,6 +754,92 @@ func tiePolygons(c *vkit.Collector, rng *vkit.Rng, budget int) {
 				c.Check("encode_polygon "+class, vkit.App("opt_eqb bytes_eqb", vkit.App("encode_polygon", cg.InZ(cg.PolygonT(p))), vkit.App("Some", cg.InZ(cg.BytesT(first)))))
 			}
 			k++
+		}
+	}
+}
+
+// ---- identical answers to queries ----
+
+// queryAnswers: valid polygons (regular loops snapped to cell centres, 8..100 vertices so that both
+// the recomputed-bound and the encoded-bound branch of the compressed format are taken; nested
+// shells and holes) are round-tripped and the decoded polygon must answer like the original:
+// derived state, ContainsPoint, Contains / Intersects against the original and against a probe.
+func queryAnswers(c *vkit.Collector, rng *vkit.Rng, budget int) {
+	for r := 0; r < 10*budget; r++ {
+		centre := cg.UnitPoint(rng)
+		level := 18 + rng.Intn(10)
+		nloops := 1 + rng.Intn(2)
+		var loops []*s2.Loop
+		for i := 0; i < nloops; i++ {
+			n := []int{8, 20, 63, 64, 65, 100}[rng.Intn(6)]
+			if r < 6 {
+				n = []int{8, 63, 64, 65, 100, 64}[r]
+			}
+			reg := s2.RegularLoop(centre, s1.Angle(0.3-0.12*float64(i)), n)
+			vs := make([]s2.Point, n)
+			for j, v := range reg.Vertices() {
+				vs[j] = s2.CellFromPoint(v).ID().Parent(level).Point()
+			}
+			loops = append(loops, s2.LoopFromPoints(vs))
+		}
+		p := s2.PolygonFromLoops(loops)
+		if p.Validate() != nil {
+			continue
+		}
+		b, err := cg.Enc(func(w *bytes.Buffer) error { return p.Encode(w) })
+		q := new(s2.Polygon)
+		derr := q.Decode(bytes.NewReader(b))
+		class := fmt.Sprintf("polygon:query-%dloops", nloops)
+		c.Class(class)
+		c.Eval(class+":"+fmt.Sprintf("%x", b[:min(len(b), 60)]), true)
+		rep := map[string]interface{}{"type": "Polygon", "class": class, "nvertices": p.NumEdges(), "level": level, "bytes": fmt.Sprintf("%x", b[:min(len(b), 300)])}
+		if err != nil || derr != nil {
+			violate(c, "Polygon.roundtrip", fmt.Sprintf("encode/decode error %v %v", err, derr), rep)
+			continue
+		}
+		derivedState(c, q, rep)
+		probe := s2.PolygonFromLoops([]*s2.Loop{s2.RegularLoop(centre, s1.Angle(0.05), 6)})
+		outer := s2.PolygonFromLoops([]*s2.Loop{s2.RegularLoop(centre, s1.Angle(0.6), 12)})
+		type qa struct {
+			name      string
+			want, got bool
+		}
+		qs := []qa{
+			{"p.Contains(q)", p.Contains(p), p.Contains(q)},
+			{"q.Contains(p)", p.Contains(p), q.Contains(p)},
+			{"q.Contains(q)", p.Contains(p), q.Contains(q)},
+			{"q.Intersects(p)", p.Intersects(p), q.Intersects(p)},
+			{"q.Contains(probe)", p.Contains(probe), q.Contains(probe)},
+			{"probe.Contains(q)", probe.Contains(p), probe.Contains(q)},
+			{"q.Intersects(probe)", p.Intersects(probe), q.Intersects(probe)},
+			{"outer.Contains(q)", outer.Contains(p), outer.Contains(q)},
+			{"q.Contains(outer)", p.Contains(outer), q.Contains(outer)},
+		}
+		for i := 0; i < p.NumLoops(); i++ {
+			qs = append(qs, qa{fmt.Sprintf("loop%d.Contains(origloop)", i), p.Loop(i).Contains(p.Loop(i)), q.Loop(i).Contains(p.Loop(i))},
+				qa{fmt.Sprintf("origloop.Contains(loop%d)", i), p.Loop(i).Contains(p.Loop(i)), p.Loop(i).Contains(q.Loop(i))},
+				qa{fmt.Sprintf("loop%d.Intersects(origloop)", i), p.Loop(i).Intersects(p.Loop(i)), q.Loop(i).Intersects(p.Loop(i))})
+		}
+		pts := []s2.Point{centre, s2.Point{Vector: centre.Mul(-1)}}
+		for i := 0; i < 12; i++ {
+			pts = append(pts, cg.UnitPoint(rng), s2.Point{Vector: centre.Add(cg.UnitPoint(rng).Mul(0.35)).Normalize()})
+		}
+		for i, pt := range pts {
+			qs = append(qs, qa{fmt.Sprintf("ContainsPoint#%d", i), p.ContainsPoint(pt), q.ContainsPoint(pt)})
+		}
+		for _, cell := range []s2.Cell{s2.CellFromPoint(centre), s2.CellFromCellID(s2.CellFromPoint(centre).ID().Parent(6)), s2.CellFromCellID(s2.CellFromPoint(centre).ID().Parent(2))} {
+			qs = append(qs, qa{"ContainsCell", p.ContainsCell(cell), q.ContainsCell(cell)}, qa{"IntersectsCell", p.IntersectsCell(cell), q.IntersectsCell(cell)})
+		}
+		for _, x := range qs {
+			c.Eval("query", false)
+			if x.want != x.got {
+				rep["query"] = x.name
+				violate(c, "Polygon.query.differs", fmt.Sprintf("%s: original answers %v, decoded answers %v", x.name, x.want, x.got), rep)
+				break
+			}
+		}
+		if !rectEq(p.RectBound(), q.RectBound()) {
+			violate(c, "Polygon.query.differs", "RectBound differs", rep)
 		}
 	}
 }
